@@ -39,7 +39,7 @@ TABLE = {
 
 
 def run(ctx):
-    for fn in (r1_preprocessing, r2_consume_emit, r3_transitions, r3b_prompt_is_source, r3c_blank_line_tests, r4_grouping, r5_group_buffers, r6_line_counter, r1b_common_indentation_of_one_line):
+    for fn in (r1_preprocessing, r2_consume_emit, r3_transitions, r3b_prompt_is_source, r3c_blank_line_tests, r4_grouping, r5_group_buffers, r6_line_counter, r1b_common_indentation_of_one_line, r3d_only_a_primary_prompt_starts_source):
         ctx.rep.rule(fn, ctx)
 
 
@@ -458,6 +458,55 @@ def r3b_prompt_is_source(ctx, rule='C13.R3b'):
     rep.floor(rule, 'prompt recognition sites', len(seen_sites), 2)
 
 
+def r3d_only_a_primary_prompt_starts_source(ctx):
+    """after text or a want only the PRIMARY prompt starts source: a want line that begins with the continuation marker `...` is an ellipsis of the
+    expected output, and a prose line that begins with it is prose.  For these previous states the recognitions on the way to the source label are
+    folded: none of the accepted prefixes may be the continuation prompt"""
+    rep = ctx.rep
+    f, g, rd, head, entry, cut, inner, val_of, truth, cur_defs = _label_machine(ctx)
+    dom = ctx.dom(g, entry, cut)
+    sites = {}
+    for prev in ('text', 'want'):
+        def ef2(a, b, kind, tok, prev=prev):
+            if kind != 'n':
+                return False
+            if b.kind == 'branch' and b.attrs['test'].kind == 'test':
+                t = truth(b.attrs['test'].ast, prev)
+                if t is not None and t != b.attrs['polarity']:
+                    return False
+            return True
+        reach = set(id(x) for x in graph.reachable([entry], efilter=ef2, stop=[head]))
+        for d in cur_defs:
+            if id(d.node) not in reach or any(graph.in_loop_body(d.node, ih.ast) for ih in inner):
+                continue
+            if not (isinstance(d.value, ast.AST) and val_of(d.value) in ('dsrc', 'dcnt')):
+                continue
+            facts = list(graph.guard_facts(dom, d.node))
+            for fa in list(facts):
+                if isinstance(fa.expr, ast.Name) and fa.polarity in (True, False) and fa.origin is not None and fa.origin.kind == 'branch':
+                    ds = rd.at(fa.origin.attrs['test'], fa.expr.id)
+                    if len(ds) == 1 and isinstance(ds[0].value, ast.Call):
+                        facts.append(graph.Fact(ds[0].value, fa.polarity, fa.origin))
+            recs = [fa for fa in facts if isinstance(fa.expr, ast.Call) and fa.polarity is True and
+                    any(isinstance(x, ast.Constant) and isinstance(x.value, str) and x.value.strip() in ('>>>', '...') for x in ast.walk(fa.expr))]
+            if not recs:
+                continue
+            lits = sorted({x.value for fa in recs for x in ast.walk(fa.expr) if isinstance(x, ast.Constant) and isinstance(x.value, str)})
+            # every recognition on the path holds at once: the line is accepted only by a prefix all of them accept
+            common = None
+            for fa in recs:
+                mine = {x.value.strip() for x in ast.walk(fa.expr) if isinstance(x, ast.Constant) and isinstance(x.value, str)}
+                common = mine if common is None else (common & mine)
+            sites.setdefault(id(d.node), (d, [], common, lits))[1].append(prev)
+    rep.floor('C13.R3d', 'source labels reachable from text / want', len(sites), 2)
+    for (d, prevs, common, lits) in sites.values():
+        ok = '...' not in common
+        rep.ob('C13.R3d', ctx.loc(f, d.node.ast), 'after %s: source on prefixes %s' % ('|'.join(sorted(prevs)), sorted(common)), ok,
+               'only the primary prompt opens source after %s' % '|'.join(sorted(prevs)) if ok else
+               'after %s a line that starts with the continuation marker `...` is labelled source: an ellipsis line inside a multi-line want ends the want and is compiled as code '
+               '(or a prose line starting with `...` is executed)' % '|'.join(sorted(prevs)), anchor=LABEL)
+
+
 def r3c_blank_line_tests(ctx):
     """a want ends at the first blank line and a blank line ends a source block: "blank" means empty after stripping.  The emptiness tests of the
     labeller must look at the stripped line, not at the line cut at the remembered indentation (a spaces-only line longer than that indentation is not empty there)"""
@@ -751,6 +800,8 @@ from ..selftest import fire, silent      # noqa: E402
 
 PA = 'xdoctest/parser.py'
 VARIANTS = [
+    fire('ellipsis-line-of-a-want-taken-as-source', 'C13.R3d', ('xdoctest/parser.py', "                elif _hasprefix(line.strip(), ('>>>',)):\n", "                elif _hasprefix(line.strip(), ('>>>', '...')):\n")),
+    fire('prose-continuation-marker-taken-as-source', 'C13.R3d', ('xdoctest/parser.py', "                if _hasprefix(strip_line, ('>>>',)):\n                    curr_state = DSRC\n", "                if _hasprefix(strip_line, ('>>>', '...')):\n                    curr_state = DSRC\n")),
     fire('single-line-not-deindented', 'C13.R1b', ('xdoctest/parser.py', "    if len(indents) > 0:\n        return min(indents)\n", "    if len(indents) > 1:\n        return min(indents)\n")),
     silent('min-indentation-truthiness-guard', ('xdoctest/parser.py', "    if len(indents) > 0:\n        return min(indents)\n", "    if indents:\n        return min(indents)\n")),
     fire('blank-test-on-cut-line', 'C13.R3c', (PA, "                if len(strip_line) == 0:\n                    curr_state = TEXT\n", "                if len(norm_line) == 0:\n                    curr_state = TEXT\n")),
